@@ -78,6 +78,9 @@ pub struct Outcome {
 }
 
 static LAST_PANIC: Mutex<Option<String>> = Mutex::new(None);
+/// (path of the abort note, index of the execution in flight): written by the panic hook, so
+/// that a panic that cannot unwind (inside an `extern "C"` runtime entry) still leaves a trace
+static ABORT_NOTE: Mutex<(Option<String>, i64)> = Mutex::new((None, -1));
 
 pub fn install_panic_hook() {
     std::panic::set_hook(Box::new(|info| {
@@ -92,6 +95,11 @@ pub fn install_panic_hook() {
         let mut g = LAST_PANIC.lock().unwrap();
         if g.is_none() {
             *g = Some(format!("{} @ {}", msg, loc));
+            if let Ok(note) = ABORT_NOTE.try_lock() {
+                if let (Some(path), idx) = (&note.0, note.1) {
+                    let _ = std::fs::write(path, format!("{}\n{} @ {}\n", idx, msg.lines().next().unwrap_or(""), loc));
+                }
+            }
         }
     }));
 }
@@ -250,6 +258,21 @@ pub fn main_for<S: Scenario>() {
     let stride: u64 = arg(&args, "--stride").map(|s| s.parse().unwrap()).unwrap_or(1);
     let budget_ms: u64 = arg(&args, "--budget-ms").map(|s| s.parse().unwrap()).unwrap_or(u64::MAX);
     let out_path = arg(&args, "--out");
+    if let Some(p) = &out_path {
+        ABORT_NOTE.lock().unwrap().0 = Some(format!("{}.abort", p));
+    }
+    if let Some(idx) = arg(&args, "--emit-scenario") {
+        // write the (unexecuted) replay object of one index: used when an execution aborted
+        let index: u64 = idx.parse().unwrap();
+        let seed: u64 = arg(&args, "--seed").map(|s| s.parse().unwrap()).unwrap_or(1);
+        let mut wl = Prng::stream(seed, "workload", index);
+        let scenario = S::generate(&mut wl);
+        let spec = spec_for(seed, index, &scenario);
+        let rep = Replay { property: S::PROPERTY.into(), harness: S::HARNESS.into(), verif_seed: seed, index, exec_seed: spec.seed, policy: spec.policy.describe(),
+                           scenario, decisions: None, violation_class: "abort".into(), violation: arg(&args, "--message").unwrap_or_default(), minimised: false };
+        std::fs::write(out_path.as_ref().expect("--out"), serde_json::to_string_pretty(&rep).unwrap()).unwrap();
+        std::process::exit(0);
+    }
     let trace_path = arg(&args, "--trace-hashes");
     let fixed_policy = arg(&args, "--policy").and_then(|p| Policy::parse(&p));
 
@@ -328,6 +351,9 @@ pub fn main_for<S: Scenario>() {
             }
             let index = from + b.k * stride;
             b.k += 1;
+            if let Ok(mut note) = ABORT_NOTE.try_lock() {
+                note.1 = index as i64;
+            }
             let mut wl = Prng::stream(seed, "workload", index);
             let scenario = S::generate(&mut wl);
             let mut spec = spec_for(seed, index, &scenario);
@@ -409,6 +435,11 @@ pub fn main_for<S: Scenario>() {
     let mut exit = 0;
     let mut vio_json = serde_json::Value::Null;
     if let Some(rep) = violation {
+        if let Some(p) = &out_path {
+            // keep the unminimised replay on disk: minimisation re-executes the failure and a
+            // panic inside an extern "C" runtime entry cannot unwind (the process aborts)
+            std::fs::write(p, serde_json::to_string_pretty(&rep).unwrap()).unwrap();
+        }
         let rep = if arg(&args, "--no-minimise").is_some() { rep } else { minimise(rep, stats.clone()) };
         let text = serde_json::to_string_pretty(&rep).unwrap();
         if let Some(p) = &out_path {
